@@ -115,11 +115,13 @@ class C10(Prop):
                   "poll_recv_trailers; serverResolve for the 431): a section h3 can decode at all is accepted under limit L "
                   "iff its RFC 9114 4.2.2 size <= L and otherwise refused with HeaderTooLong(n), L < n <= size, n never "
                   "wrapping (size <= 272*|block|); encode_stateless returns exactly the size and a send site refuses iff "
-                  "size > peerLimit, writing nothing; over-limit receive outcomes (431 attempted, refused 431 still "
+                  "size > peerLimit, writing nothing (send_request: the limit in force when its stream has been opened, "
+                  "whatever it was at the call; split leaves the receive half's limit unchanged); over-limit receive outcomes (431 attempted, refused 431 still "
                   "header-too-big, STOP_SENDING H3_REQUEST_CANCELLED on the client) never touch the connection error")
     level_note = ("trusted: Lean kernel + 3 standard axioms; the call-site decision functions are hand-written summaries of "
                   "the six Rust functions, tied by the connection-level scenario engine `lim` (real h3::server/h3::client "
-                  "over SimQuic, both roles, limits via builder and via peer SETTINGS delivered before/after the send) and "
+                  "over SimQuic, both roles, limits via builder and via peer SETTINGS delivered before/after the send, "
+                  "while send_request waits for stream credit, with the driver polled or not; both halves after split) and "
                   "the function-level engine `qpack`; HeaderMap iteration order and Header::{request,response,trailer} "
                   "field order observed, not proved (C12)")
     rule = ("cases: qpack dec for L in {0,1,41,42,43,small,2^62-1,2^64-1} x sections of 1..4 fields whose size sweeps "
